@@ -26,7 +26,7 @@ func c08recPath(bin bool, shard int) string {
 	return fmt.Sprintf("/verif/build/out/c08.%s.%d.rec", map[bool]string{true: "bin", false: "json"}[bin], shard)
 }
 
-func c08total(f *evid.Flags) int { return f.N(30000, 1500000) }
+func c08total(f *evid.Flags) int { return f.N(80000, 5000000) }
 
 // c08emit runs the shared program list under this binary's encoding and records every write.
 func c08emit(args []string) int {
